@@ -66,6 +66,8 @@ def run(ctx):
     traces = ctx.drop_dead(traces)
     nconn = sum(1 for t in traces for e in t["events"] if e.get("event") == "Accept")
     delays = sorted({e["dt"] // 1000 for t in traces for e in t["events"] if e.get("event") == "Deadline" and e.get("kind") == "r"})
+    if not traces:
+        raise Inconclusive("every scenario died in the driver")
     ctx.sample({"bridge": traces[0]["scenario"]["seed"], "events": traces[0]["events"][:14]})
     rejected = ctx.validate("Obfs4ProbeTrace", "Obfs4ProbeTrace.cfg", traces, label="trace validation", timeout=1800, max_rejects=6)
     ctx.log("%d bridges, %d probe connections, drop delays seen (s): %s, %d rejected" % (len(traces), nconn, delays, len(rejected)))
